@@ -45,6 +45,7 @@ fn main() {
                     run::finish(cs, &driver, &out, seed, tier, ops::c01::RULE, extra)
                 }
                 "C05" => run::finish(ops::c05::cases(seed, tier), &driver, &out, seed, tier, ops::c05::RULE, serde_json::json!({})),
+                "C13" => run::finish(ops::c13::cases(seed, tier), &driver, &out, seed, tier, ops::c13::RULE, serde_json::json!({})),
                 "C07" => run::finish(ops::c07::cases(seed, tier), &driver, &out, seed, tier, ops::c07::RULE, serde_json::json!({})),
                 _ => Err(format!("unknown property {}", prop)),
             };
